@@ -4,6 +4,7 @@ from props import ringlib as R
 
 ID = 'C07'
 PROP_FILE = 'Props/C07.v'
+EXTRA_PROP_FILES = ['Props/C07Src.v']     # K1 source tie (tools/props/src_translate.py), see docs/reports/SRC.md
 EVAL_FILES = ['Oracle/C07Oracle.v', 'Oracle/C07UOracle.v', 'Model/RingThreads.v', 'Model/RingAgent.v']
 CRATES = ['c06']
 MODES = ['debug', 'release']
